@@ -8,6 +8,7 @@ import (
 	"go/token"
 	"regexp"
 	"strconv"
+	"strings"
 
 	"golang.org/x/tools/go/ssa"
 )
@@ -76,6 +77,14 @@ func (fr *Frame) loopClauses(li *loopInfo, kind string) []*Clause {
 	var out []*Clause
 	if fr.fc == nil || li.ordinal < 0 {
 		return nil
+	}
+	if kind == "invariant" && fr.top && len(fr.fc.Derived) > 0 && li.parent == nil && fr.timeLoopOf() == li {
+		for _, d := range fr.fc.Derived {
+			i := strings.Index(d, "=")
+			src := strings.TrimSpace(d[:i]) + " == " + strings.TrimSpace(d[i+1:])
+			out = append(out, &Clause{Kind: "invariant", Label: "C06.derived-carry", Props: []string{"C06"}, Src: src,
+				Expr: parseExprSrc(src, fr.fc.File, fr.fc.Line), Loop: li.ordinal, File: fr.fc.File, Line: fr.fc.Line})
+		}
 	}
 	for _, cl := range fr.fc.Clauses {
 		if cl.Kind == kind && cl.Loop == li.ordinal {
